@@ -59,6 +59,14 @@ func Current() int {
 // Active reports whether an execution is in progress.
 func Active() bool { return cur != nil }
 
+// Epoch identifies the current controlled execution (nil outside one); shims with per-execution state reset on change.
+func Epoch() any {
+	if cur == nil {
+		return nil
+	}
+	return cur
+}
+
 // Point is a scheduling point (inserted before every statement of instrumented code).
 func Point() {
 	e := cur
